@@ -5,6 +5,7 @@ import Proofs.C05Tables
 import Proofs.C05Scan
 import Proofs.C05Rec
 import Proofs.C05Longest
+import Proofs.C05Store
 /-!
 # C05 — number/string conversion and comparison typing follow the AWK value model
 
@@ -299,5 +300,102 @@ example : numToStr (fun _ => []) (.ofInt 42) = [52, 50] := by
 theorem nonfinite_to_str (fmt : Num → Bytes) :
     numToStr fmt .nan = [110, 97, 110] ∧ numToStr fmt .pinf = [105, 110, 102] ∧
     numToStr fmt .ninf = [45, 105, 110, 102] := ⟨rfl, rfl, rfl⟩
+
+/-! ## stores that may not happen: the provenance is what the last SUCCESSFUL store left -/
+
+/-- everything a program can observe of a value through comparisons (six operators, either side, any other operand),
+the truth test, arithmetic and concatenation -/
+def sameProbes (a b : Val) : Prop :=
+  ∀ (sc : Strconv Num) (fmt : Num → Bytes),
+    (∀ (op : CmpOp) (r : Val), compareWith sc fmt op op a r = compareWith sc fmt op op b r ∧
+                                compareWith sc fmt op op r a = compareWith sc fmt op op r b) ∧
+    toBool sc a = toBool sc b ∧ toNum sc a = toNum sc b ∧ toStr fmt a = toStr fmt b
+
+/-- a `getline t` (variable, function local, special variable, array element) that does not return 1 — end of input
+(0) or an error (-1: missing file, directory, read error, unopenable next ARGV file) — leaves every probe of its target
+as it was: an unset target is still unset, numeric-looking input text still compares numerically -/
+theorem getline_failed_keeps (ret : Int) (h : ret ≠ 1) (line : Bytes) (old : Val) :
+    getlineStore ret line old = old ∧ sameProbes (getlineStore ret line old) old := by
+  rw [getlineStore_ne ret line old h]
+  exact ⟨rfl, fun _ _ => ⟨fun _ _ => ⟨rfl, rfl⟩, rfl, rfl, rfl⟩⟩
+
+example : (-1 : Int) ≠ 1 := by decide
+example : getlineStore (-1) [] .null = .null := by decide
+example : getlineStore 0 [] (.numstr [32, 49, 48, 32]) = .numstr [32, 49, 48, 32] := by decide
+
+/-- the hypothesis is needed, and a store of the (empty) line on failure is observable: an unset value compares with
+a number numerically (`x == 0` holds), the empty input text as a string (`"" == "0"` does not) -/
+theorem getline_store_on_failure_observable :
+    cmpMode ⟨fun _ => .zero, fun _ => false⟩ .null (.num .zero) = .numeric ∧
+    cmpMode ⟨fun _ => .zero, fun _ => false⟩ (.numstr []) (.num .zero) = .string := by
+  decide
+
+/-- a successful `getline t` leaves input-derived text: it compares numerically with a number exactly when the line
+looks entirely like a number -/
+theorem getline_ok_input_text (sc : Strconv Num) (line : Bytes) (old : Val) (x : Num) :
+    getlineStore 1 line old = .numstr line ∧
+    (cmpMode sc (getlineStore 1 line old) (.num x) = .numeric ↔ (scanWhole sc.ovf line).isSome = true) := by
+  refine ⟨getlineStore_one line old, ?_⟩
+  rw [getlineStore_one, mode_exact]
+  simp [numLike]
+
+/-- `sub`/`gsub` without a match leave a variable / array-element target as it was (a number, unset value or input text
+does not turn into a string); with a match the target is a string -/
+theorem sub_store (n : Nat) (out : Bytes) (old : Val) :
+    (n = 0 → subStore n out old = old ∧ sameProbes (subStore n out old) old) ∧
+    (n ≠ 0 → ∀ sc r, cmpMode sc (subStore n out old) r = .string) := by
+  constructor
+  · intro h
+    have : subStore n out old = old := by simp [subStore, h]
+    rw [this]
+    exact ⟨rfl, fun _ _ => ⟨fun _ _ => ⟨rfl, rfl⟩, rfl, rfl, rfl⟩⟩
+  · intro h sc r
+    simp [subStore, h, cmpMode, isTrueStr]
+
+example : subStore 0 [113] (.num .pinf) = .num .pinf := by decide
+
+/-- on a field, `sub`/`gsub` without a match keep text and flag (the field stays input-derived) -/
+theorem sub_store_field (out : Bytes) (old : Bytes × Bool) : subStoreField 0 out old = old := by
+  simp [subStoreField]
+
+/-- `for (t in a)` over an array without keys leaves the loop variable alone; otherwise it ends as the string of one of
+the keys -/
+theorem forIn_store (keys : List Bytes) (old : Val) :
+    (keys = [] → forInStore keys old = old) ∧
+    (keys ≠ [] → ∃ k ∈ keys, forInStore keys old = .str k) := by
+  constructor
+  · intro h; subst h; rfl
+  · intro h
+    cases keys with
+    | nil => exact absurd rfl h
+    | cons k ks => exact forInStore_str ks k
+
+/-- `split` of nothing leaves every element of the target array unset; a piece is input-derived text -/
+theorem split_store (parts : List Bytes) (k : Nat) :
+    (parts = [] → splitElem parts k = .null) ∧
+    (∀ p, parts[k]? = some p → splitElem parts k = .numstr p) := by
+  constructor
+  · intro h; subst h; simp [splitElem]
+  · intro p h; simp [splitElem, h]
+
+/-- the source text of the stores is the one the model was written against (`if ret == 1 { … = numStr(line) }` in the
+four getline opcodes for named targets and `GetlineField`, `if n.num() > 0` in `AssignFieldSub`, `if n == 0 { …, in }`
+in `BuiltinSub`/`BuiltinGsub`, the loop-variable store of `ForIn` inside the loop, the returns of `getline()`, the
+array replacement of `split()`) -/
+theorem gen_matches_stores :
+    Generated.C05Store.storeBodies = expectedStoreBodies ∧ Generated.C05Store.subBodies = expectedSubBodies :=
+  ⟨gen_matches_store_bodies, gen_matches_sub_bodies⟩
+
+/-- `getline()` hands a line back only together with status 1 (three of its thirteen returns; every other return has
+the empty line), and `split()` stores a fresh array holding `numStr(part)` per piece -/
+theorem gen_matches_getline_returns :
+    Generated.C05Store.getlineReturns =
+      ["return 0, \"\", err", "return -1, \"\", nil", "return 0, \"\", nil", "return 1, scanner.Text(), nil",
+       "return -1, \"\", nil", "return 0, \"\", err", "return -1, \"\", nil", "return 0, \"\", nil", "return 1, scanner.Text(), nil",
+       "return 0, \"\", nil", "return 0, \"\", err", "return -1, \"\", nil", "return 1, line, nil"] ∧
+    Generated.C05Store.splitArrayStmts =
+      ["array := make(map[string]value, len(parts))", "for i, part := range parts { array[strconv.Itoa(i+1)] = numStr(part) }",
+       "p.arrays[p.arrayIndex(scope, index)] = array", "return len(array), nil"] :=
+  gen_matches_getline_split
 
 end GoawkModel.C05.Props
